@@ -39,15 +39,30 @@ def comprehension(I, node, env, sl, elt_fn):
         if mc and mc[0] in EVAL_LIKE and sl.family is not None:
             args = [I.eval(a, env) for a in mc[1]]
             return map_eval_like(I, sl, mc[0], args)
+    pre = _single_child_call(elt, g.target)
+    if pre is not None and sl.family is not None:
+        # e.g. mf.multiply(inner._numeric_partial(name, point), *others) for (i, inner) in enumerate(inners):
+        # the child calls are made for the whole family first (each may raise), then the
+        # element function is the pure remainder with the call replaced by its result
+        call, var, method = pre
+        args = [I.eval(a, env) for a in call.args]
+        results = map_eval_like(I, sl, method, args)
+        return lazy_map(I, node, env, sl, None, replaced=(call, results))
     return lazy_map(I, node, env, sl, elt_fn)
 
 
-def lazy_map(I, node, env, sl, elt_fn):
+def lazy_map(I, node, env, sl, elt_fn, replaced=None):
     """Pure element-wise map: the element function is evaluated at each index on demand.  Only
     shapes that cannot raise and have no effect are accepted."""
     from .interp import Env
     g = node.generators[0]
     elt = node.elt
+    if replaced is not None:
+        call, results = replaced
+        tmp = "__pre_evaluated"
+        elt = _ReplaceNode(call, ast.Name(id=tmp, ctx=ast.Load())).visit(_copy_ast(elt, call))
+        ast.fix_missing_locations(elt)
+        elt_fn = lambda e2: I.eval(elt, e2)
     if not _pure_elementwise(elt):
         _unsupported(f"element expression `{ast.unparse(elt)[:60]}` over a symbolic-length list")
     cache = {}
@@ -57,13 +72,54 @@ def lazy_map(I, node, env, sl, elt_fn):
         if key not in cache:
             e2 = Env(env.module, env, env.funcdef, env.frame_id)
             I.assign(g.target, sl.elem(t), e2)
+            if replaced is not None:
+                e2.vars["__pre_evaluated"] = replaced[1].elem(t)
             cache[key] = elt_fn(e2)
         return cache[key]
     return SList(sl.length, elem, f"map({sl.tag})")
 
 
+class _ReplaceNode(ast.NodeTransformer):
+    def __init__(self, old, new):
+        self.old, self.new = old, new
+
+    def visit(self, node):
+        if getattr(node, "_replace_me", False):
+            return self.new
+        return super().visit(node)
+
+
+def _copy_ast(elt, call):
+    import copy
+    call._replace_me = True
+    try:
+        return copy.deepcopy(elt)
+    finally:
+        del call._replace_me
+
+
+def _single_child_call(elt, target):
+    """elt contains exactly one call `<var>.<eval-like method>(args not mentioning the loop
+    variables)` where <var> is a loop variable -> (call node, var, method)."""
+    names = {n.id for n in ast.walk(target) if isinstance(n, ast.Name)}
+    found = []
+    for n in ast.walk(elt):
+        if isinstance(n, ast.Call) and isinstance(n.func, ast.Attribute) and isinstance(n.func.value, ast.Name) \
+                and n.func.value.id in names and n.func.attr in EVAL_LIKE and not n.keywords:
+            if any(isinstance(x, ast.Name) and x.id in names for a in n.args for x in ast.walk(a)):
+                return None
+            found.append(n)
+    if len(found) != 1 or found[0] is elt:
+        return None
+    if not isinstance(target, ast.Tuple) or len(target.elts) != 2 or not all(isinstance(e, ast.Name) for e in target.elts) \
+            or found[0].func.value.id != target.elts[1].id:
+        return None       # the supported loop is `for (i, inner) in enumerate(children)`
+    return found[0], found[0].func.value.id, found[0].func.attr
+
+
 PURE_CALLS = {"str", "repr"}
 PURE_METHODS = {"_synthetic_partial"}
+PURE_HELPERS = {"multiply", "list_without_entry_at"}      # used through their contracts (HELPER_CONTRACTS)
 
 
 def _pure_elementwise(elt):
@@ -73,6 +129,8 @@ def _pure_elementwise(elt):
             if isinstance(f, ast.Name) and (f.id in PURE_CALLS or f.id[:1].isupper()):
                 continue            # str(x) / constructor calls on expression operands
             if isinstance(f, ast.Attribute) and (f.attr in PURE_METHODS or f.attr[:1].isupper()):
+                continue
+            if isinstance(f, ast.Attribute) and f.attr in PURE_HELPERS and isinstance(f.value, ast.Name):
                 continue
             return False
         if isinstance(n, (ast.Lambda, ast.ListComp, ast.GeneratorExp, ast.Await, ast.Yield)):
@@ -231,7 +289,51 @@ def concat(I, a, b):
 
 
 def b_enumerate(I, sl):
-    return SList(sl.length, lambda t: (SNum(t, True) if not z3.is_int_value(t) else t.as_long(), sl.elem(t)), f"enumerate({sl.tag})", family=sl.family)
+    return SList(sl.length, lambda t: (RangedIndex(t, sl.length) if not z3.is_int_value(t) else t.as_long(), sl.elem(t)),
+                 f"enumerate({sl.tag})", family=sl.family)
+
+
+# ---------------------------------------------------------------------------- helper contracts
+# Helpers that are called with a symbolic-length list are used through their contract; each
+# contract is discharged against the helper's real body by its own family (families/gfam.py:
+# `math_functions.multiply[any arity]`, `utilities.list_without_entry_at[any length]`).
+
+def helper_multiply(I, fd, args):
+    sl = concat_star(I, args) if not (len(args) == 1 and isinstance(args[0], StarArgs)) else args[0].slist
+    body = lambda t: real_term(sl.elem(t))
+    gmode.register_zero_lemma(I, body, sl.length)
+    return SNum(gmode.bigprod(I, body, sl.length), z3.Bool(I.path.fresh_name("product_is_int")) if not gmode.keying() else False)
+
+
+def helper_list_without_entry_at(I, fd, args):
+    entries, i = args
+    if isinstance(i, RangedIndex) and z3.simplify(i.length).get_id() == z3.simplify(entries.length).get_id():
+        # 0 <= i < len(entries): the list with its i-th entry removed
+        j = i.term
+        fam = entries.family
+
+        def elem(u):
+            a, b = entries.elem(u), entries.elem(z3.simplify(u + 1))
+            if is_num(a) and is_num(b):
+                return SNum(z3.If(u < j, real_term(a), real_term(b)), False)
+            _unsupported("entry-removed list of objects")
+        return SList(z3.simplify(entries.length - 1), elem, f"{entries.tag}~{j}")
+    _unsupported("list_without_entry_at with an index that is not an enumerate() index of the same list")
+
+
+HELPER_CONTRACTS = {
+    "math_functions.multiply": (helper_multiply, lambda args: any(isinstance(x, StarArgs) for x in args)),
+    "utilities.list_without_entry_at": (helper_list_without_entry_at, lambda args: len(args) == 2 and isinstance(args[0], SList)),
+}
+
+
+def helper_contract(I, fd, args, kwargs):
+    """The contract result, or NotImplemented when the call is to be executed inline."""
+    ent = HELPER_CONTRACTS.get(fd.qualname)
+    if ent is None or kwargs or I.ghost.get("inline_helper") == fd.qualname or not ent[1](args):
+        return NotImplemented
+    I.ghost.setdefault("helper_contracts_used", set()).add(fd.qualname)
+    return ent[0](I, fd, args)
 
 
 def b_zip(I, lists):
